@@ -4,6 +4,6 @@ go 1.18
 
 require github.com/at-wat/mqtt-go v0.0.0
 
-require golang.org/x/net v0.33.0 // indirect
+require golang.org/x/net v0.33.0
 
 replace github.com/at-wat/mqtt-go => /repo
